@@ -181,19 +181,19 @@ _NAMES = {"get_label": "get_label", "get_class": "get_class", "contains": "__con
 def _wrap(name):
     real = _real[name]
 
-    @deal.ensure(lambda _: _judge(_.self, name, _.result))
-    def judged(self, *args):
+    @deal.ensure(lambda self, *args, result=None, **kwargs: _judge(self, name, result))
+    def judged(self, *args, **kwargs):
         try:
-            return ("ok", real(self, *args))
+            return ("ok", real(self, *args, **kwargs))
         except Exception as e:  # judged by the contract
             return ("exc", e)
 
-    def method(self, *args):
+    def method(self, *args, **kwargs):
         if getattr(self, "_h_exp", None) is None or self._h_depth:
-            return real(self, *args)  # not a database under test, or a nested call of the real code
+            return real(self, *args, **kwargs)  # not a database under test, or a nested call of the real code
         self._h_depth += 1
         try:
-            tag, val = judged(self, *args)
+            tag, val = judged(self, *args, **kwargs)
         finally:
             self._h_depth -= 1
         if tag == "exc":
@@ -222,16 +222,27 @@ def installed():
 # --------------------------------------------------------------------------------------------------------------
 
 
-def alphabet(nclasses, ints):
-    """Operations as JSON-able tuples."""
+def alphabet(nclasses, ints, lite=False):
+    """Operations as JSON-able tuples (lite: without is_empty-with-label and add(non-class))."""
     ops = []
     for name in ("get_label", "get_class", "contains"):
         ops += [(name, "c", i) for i in range(nclasses)] + [(name, "k", k) for k in ints]
     ops += [("is_empty", "c", i) for i in range(nclasses)]  # label=None
-    ops += [("is_empty_l", "c", i) for i in range(nclasses)]  # with the label when the class is known
+    if not lite:
+        ops += [("is_empty_l", "c", i) for i in range(nclasses)]  # with the label when the class is known
     ops += [("set_empty", "c", i) for i in range(nclasses)] + [("set_empty", "k", k) for k in ints]
-    ops += [("add", "c", i) for i in range(nclasses)] + [("add", "k", 7)]
+    ops += [("add", "c", i) for i in range(nclasses)]
+    if not lite:
+        ops += [("add", "k", 7)]
     return ops
+
+
+FULL = alphabet(3, INTS)
+CORE = [o for o in alphabet(2, (-1, 0, 1), lite=True) if o[:2] != ("get_label", "k")]
+MINI = [("get_label", "c", 0), ("get_label", "c", 1), ("get_label", "k", 1), ("get_class", "k", 0), ("get_class", "c", 1),
+        ("contains", "c", 1), ("contains", "k", 1), ("is_empty", "c", 1), ("is_empty_l", "c", 0), ("set_empty", "c", 1),
+        ("set_empty", "k", 0), ("add", "c", 0)]
+ALPHABETS = {"full": FULL, "core": CORE, "mini": MINI}
 
 
 def _key(i):
@@ -263,32 +274,51 @@ def _do(db, model, op):
 
 
 def _sweep(db, model, nclasses):
-    """Read the whole database back through the public API and compare with the model."""
+    """Read the whole database back through the public API (plain calls of the real methods) and compare with the
+    model: dense labels, round trips, total membership, KeyError for unknown ints, cached emptiness, is_empty() once."""
+    COUNTS["sweep"] += 1
     cls = db.combinatorial_class
     n = len(model.order)
+    db._h_exp = None  # the wrappers pass straight through to the real methods from here on
     if list(db) != list(range(n)):
         return _note("labels-dense-in-order", f"iteration gives {list(db)}, expected {list(range(n))}")
-    for op in [("contains", "c", i) for i in range(nclasses)] + [("contains", "k", k) for k in INTS] + \
-              [("get_label", "k", k) for k in INTS] + [("get_class", "k", k) for k in INTS]:
+    for i in range(nclasses):
         try:
-            _do(db, model, op)
-        except (KeyError, TypeError):
-            pass
+            got = mk(cls, i) in db
+        except Exception as e:
+            return _note("contains-raises", f"{SPECS[i]} in db raised {type(e).__name__} after {model.order}")
+        if got is not (i in model.order):
+            return _note("contains-result", f"{SPECS[i]} in db = {got!r} after {model.order}")
+    for k in INTS:
+        valid = 0 <= k < n
+        try:
+            got = k in db
+        except Exception as e:
+            return _note("contains-raises", f"{k} in db raised {type(e).__name__} with {n} classes")
+        if got is not valid:
+            return _note("contains-result", f"{k} in db = {got!r} with {n} classes")
+        for name in ("get_label", "get_class"):
+            try:
+                val = getattr(db, name)(k)
+            except KeyError:
+                if valid:
+                    return _note(f"{name}-raises", f"{name}({k}) raised KeyError with {n} classes")
+                continue
+            except Exception as e:
+                return _note(f"{name}-raises", f"{name}({k}) raised {type(e).__name__} with {n} classes")
+            if not valid:
+                return _note(f"{name}-expected-KeyError", f"{name}({k}) returned {val!r} with {n} classes")
+            if name == "get_label" and val != k:
+                return _note("get_label-result", f"get_label({k}) = {val!r}")
+            if name == "get_class" and (not isinstance(val, cls) or val != mk(cls, model.order[k])):
+                return _note("get_class-equals-stored", f"get_class({k}) = {val!r}, expected {SPECS[model.order[k]]}")
     for lab in range(n):
         i = model.order[lab]
-        try:
-            _do(db, model, ("get_label", "c", i))
-            _do(db, model, ("is_empty_l", "c", i))
-        except (KeyError, TypeError):
-            pass
-        saved, db._h_exp = db._h_exp, None  # plain (unjudged) calls for the round trip
-        try:
-            back = db.get_label(db.get_class(lab))
-        finally:
-            db._h_exp = saved
-        if back != lab:
-            return _note("label-class-roundtrip", f"get_label(get_class({lab})) = {back}")
-    if len(model.order) != n:
+        if db.get_label(mk(cls, i)) != lab or db.get_label(db.get_class(lab)) != lab:
+            return _note("label-class-roundtrip", f"label {lab} (class {SPECS[i]}) does not round trip")
+        if db.is_empty(mk(cls, i), lab) is not TRUTH[i] or db.is_empty(mk(cls, i)) is not TRUTH[i]:
+            return _note("is_empty-result", f"is_empty of class {SPECS[i]} (label {lab}) differs from its own answer")
+    if len(list(db)) != n:
         return _note("sweep-changed-the-database", "reading back added classes")
     return True
 
@@ -331,8 +361,9 @@ def _worker(task):
     viols, evals, nontriv, samples = [], 0, 0, []
     with installed():
         if kind == "exh":
-            _, tname, nclasses, ints, length, shard, nshards = task
-            ops = alphabet(nclasses, ints)
+            _, tname, aname, length, shard, nshards = task
+            ops = ALPHABETS[aname]
+            nclasses = 3
             for hi, head in enumerate(itertools.product(ops, repeat=min(2, length))):
                 if hi % nshards != shard:
                     continue
@@ -348,7 +379,7 @@ def _worker(task):
         else:
             _, tname, maxlen, n, seed = task
             rng = random.Random(seed)
-            ops = alphabet(3, INTS)
+            ops = FULL
             seen = set()
             for _ in range(n):
                 h = tuple(rng.choice(ops) for _ in range(rng.randint(4, maxlen)))
@@ -365,35 +396,34 @@ def _worker(task):
     return {"viols": viols, "evals": evals, "nontriv": nontriv, "counts": dict(COUNTS), "samples": samples}
 
 
-CORE_INTS = (-1, 0, 1, 2)
-
-
 def run(tier, seed):
     tasks = []
-    full = len(alphabet(3, INTS))
-    core = len(alphabet(2, CORE_INTS))
-    mini = len(alphabet(2, (0, 1)))
     for tname in TYPES:
+        off = 0 if tname == "plain" else 500
         if tier == "quick":
-            tasks += [("exh", tname, 3, INTS, 3, s, 32) for s in range(32)]
-            tasks += [("exh", tname, 2, CORE_INTS, 4, s, 32) for s in range(32)]
-            tasks += [("exh", tname, 2, (0, 1), 5, s, 64) for s in range(64)]
-            tasks += [("exh", tname, 3, INTS, L, 0, 1) for L in (1, 2)]
-            tasks += [("rnd", tname, 12, 1500, seed * 1000 + i + (0 if tname == "plain" else 500)) for i in range(16)]
+            tasks += [("exh", tname, "core", 4, s, 64) for s in range(64)]
+            tasks += [("exh", tname, "mini", 5, s, 48) for s in range(48)]
+            tasks += [("exh", tname, "full", 3, s, 25) for s in range(25)]
+            tasks += [("exh", tname, "full", L, 0, 1) for L in (1, 2)]
+            tasks += [("rnd", tname, 12, 1500, seed * 1000 + i + off) for i in range(16)]
         else:
-            tasks += [("exh", tname, 3, INTS, 4, s, 512) for s in range(512)]
-            tasks += [("exh", tname, 2, CORE_INTS, 5, s, 256) for s in range(256)]
-            tasks += [("exh", tname, 2, (0, 1), 6, s, 484) for s in range(484)]
-            tasks += [("exh", tname, 3, INTS, L, 0, 1) for L in (1, 2, 3)]
-            tasks += [("rnd", tname, 14, 8000, seed * 1000 + i + (0 if tname == "plain" else 500)) for i in range(32)]
-    d1, d2, d3 = (3, 4, 5) if tier == "quick" else (4, 5, 6)
-    bound = (f"for BOTH class types (stored as is / zlib-compressed through to_bytes): EXHAUSTIVE every history of <={d1} "
-             f"operations over the full alphabet ({full} operations: get_label, get_class, `in`, set_empty on 3 classes "
-             f"(one of them empty) and ints -2..4; is_empty with and without label, add on the 3 classes; add(non-class)); "
-             f"every history of exactly {d2} operations over the core alphabet ({core} operations: 2 classes, ints -1..2); "
-             f"every history of exactly {d3} operations over the mini alphabet ({mini} operations: 2 classes, ints 0..1); "
+            tasks += [("exh", tname, "full", 4, s, 1250) for s in range(1250)]
+            tasks += [("exh", tname, "mini", 6, s, 144) for s in range(144)]
+            tasks += [("exh", tname, "mini", 5, s, 48) for s in range(48)]
+            tasks += [("exh", tname, "core", 4, s, 64) for s in range(64)]
+            tasks += [("exh", tname, "full", 3, s, 25) for s in range(25)]
+            tasks += [("exh", tname, "full", L, 0, 1) for L in (1, 2)]
+            tasks += [("rnd", tname, 14, 8000, seed * 1000 + i + off) for i in range(32)]
+    d1, d3 = (3, "exactly 5") if tier == "quick" else (4, "5 and 6")
+    bound = (f"for BOTH class types (stored as is / zlib-compressed through to_bytes), fresh class objects in every operation: "
+             f"EXHAUSTIVE every history of <={d1} operations over the full alphabet ({len(FULL)} operations: get_label, "
+             f"get_class, `in`, set_empty on 3 classes (one of them empty) and on ints -2..4; is_empty with and without "
+             f"label and add on the 3 classes; add(non-class)); every history of exactly 4 operations over the core alphabet "
+             f"({len(CORE)} operations: the same on 2 classes and ints -1..1, without get_label(int), is_empty-with-label and add(non-class)); "
+             f"every history of {d3} operations over a mini alphabet of {len(MINI)} operations {MINI}; "
              f"SEEDED {'24000' if tier == 'quick' else '256000'} histories of 4..{12 if tier == 'quick' else 14} operations "
-             "over the full alphabet per type; every history is followed by a read-back sweep of the whole database")
+             "over the full alphabet per type; every history is followed by a read-back sweep of the whole database over "
+             "the 3 classes and ints -2..4")
     ctx = multiprocessing.get_context("fork")
     with ctx.Pool(NPROC) as pool:
         results = pool.map(_worker, tasks, chunksize=1)
